@@ -93,6 +93,12 @@ MACMOD2_SRC = '''
 (setv _hy_export_macros ["m2" "m3"])
 '''
 
+MACMOD3_SRC = '''
+(defmacro m1 [] 31)
+(defmacro m2 [] 32)
+(setv _hy_export_macros [])
+'''
+
 # (program, expected value or ("error", class name) ; optional expected warning substring)
 SCENARIOS = [
     ("(defmacro a [] 1) (a)", 1, None),
@@ -115,6 +121,10 @@ SCENARIOS = [
     ("(require vfmacmod35b *) [(m2) (m3)]", [22, 23], None),
     ("(require vfmacmod35b *) (m1)", ("error", "NameError"), None),
     ("(require vfmacmod35b [m1]) (m1)", 21, None),
+    # an empty export list exports nothing (it is not the same as having no export list)
+    ("(require vfmacmod35c *) (m1)", ("error", "NameError"), None),
+    ("(require vfmacmod35c *) (require vfmacmod35c [m2]) (m2)", 32, None),
+    ("(defn f [] (require vfmacmod35c *) (m1)) (f)", ("error", "NameError"), None),
     ("(require vfmacmod35 [nope])", ("error", "HyRequireError"), None),
     ("(require no_such_module_vf35)", ("error", "HyRequireError"), None),
     ("(require vfmacmod35 [m1]) (require vfmacmod35b [m1]) (m1)", 21, None),
@@ -139,7 +149,7 @@ def _setup_modules():
 
     import hy
 
-    for nm, src in (("vfmacmod35", MACMOD_SRC), ("vfmacmod35b", MACMOD2_SRC)):
+    for nm, src in (("vfmacmod35", MACMOD_SRC), ("vfmacmod35b", MACMOD2_SRC), ("vfmacmod35c", MACMOD3_SRC)):
         if nm not in sys.modules:
             m = types.ModuleType(nm)
             sys.modules[nm] = m
